@@ -117,20 +117,7 @@ fn c17_queue_fifo_4() {
     queue_fifo(4);
 }
 
-// HARNESS: c17_queue_fifo_5
-// PROPS: C17
-// TIER: thorough
-// TIMEOUT: 1800
-// DRIVES: LinkConditioner::insert, LinkConditioner::pop, TimedMessage::cmp, TimedMessage::partial_cmp
-// BOUNDS: 5 messages on 2 channels, symbolic non-decreasing stamps, config = None; unwind 7, heap sift loops 4, swap chunk loop 10
-// ASSUME: no link conditioner configured (config = None), as in the property statement
-// UNWINDSET: BinaryHeap::<link_conditioner::TimedMessage>::sift_up=4; BinaryHeap::<link_conditioner::TimedMessage>::sift_down_to_bottom=4; swap_nonoverlapping_chunks=10
-#[kani::proof]
-#[kani::stub(fastrand::Rng::new, seeded_rng)]
-#[kani::unwind(7)]
-fn c17_queue_fifo_5() {
-    queue_fifo(5);
-}
+// (A 5-message variant with symbolic stamps was dropped: out of memory even with the 52 GB limit.)
 
 /// `n` messages read in ONE receiver frame (all stamped with the same `now`, as `receive_packets`
 /// does), on symbolic channels, then `k` more in a later frame; everything popped afterwards.
